@@ -98,11 +98,13 @@ Example nonnullary_right_samples :
               /\ wfb c' = true) /\
   (exists c', connect_circuit cex_c_nn cex_o_pq ["x"; "i"] ["p"; "q"] true "" false = Ok c'
               /\ wfb c' = true) /\
-  (exists c', connect_circuit cex_c_nn cex_o_pq ["x"; "i"] ["q"; "q"] true "B" true = Ok c'
-              /\ wfb c' = true).
+  (exists c', connect_circuit cex_c_nn cex_o_pq ["x"; "i"] ["q"; "p"] true "B" true = Ok c'
+              /\ wfb c' = true) /\
+  (* one gate of `other` cannot be written over two base inputs (repaired: it used to drop a pair) *)
+  connect_circuit cex_c_nn cex_o_pq ["x"; "i"] ["q"; "q"] true "B" true = Err CreateBlockError.
 Proof.
   split; [vm_compute; reflexivity|].
-  repeat split; eexists; split; vm_compute; reflexivity.
+  repeat split; try (vm_compute; reflexivity); eexists; split; vm_compute; reflexivity.
 Qed.
 
 (* Remarks.
